@@ -48,7 +48,35 @@ def role_unmerged_marker(sk, leaf, ob):
     return "~unmerged" in ob["n"]
 
 
+def _unmerged(lines):
+    """python twin of relational.rs::unmerged: after a stable sort by day, two same-day same-kind trade lines of one
+    security separated by another line"""
+    v = sorted(lines, key=lambda l: l[2])
+    for i, a in enumerate(v):
+        if a[0] not in ("B", "S"):
+            continue
+        gap = False
+        for b in v[i + 1:]:
+            if b[2] != a[2]:
+                break
+            if b[0] == a[0] and b[1] == a[1]:
+                if gap:
+                    return True
+            else:
+                gap = True
+    return False
+
+
+def role_residue_unmerged(sk, leaf, ob):
+    """the REAL build refuses a covered ledger with an unmatched remainder below 1e-15 shares, on a line order that leaves
+    same-day lots unmerged (proportional consumption across several lots of one day rounds at 28 digits)"""
+    import re
+    msg = leaf.get("msg") or ""
+    return bool(re.search(r"unmatched 0\.0{15,}\d", msg)) and _unmerged(_lines(sk))
+
+
 ROLES = {
+    "residue-unmerged-same-day-lots": role_residue_unmerged,
     "unmerged-same-day-lines": role_unmerged_marker,
     "nonadjacent-same-day-lots": role_nonadjacent_same_day_lots,
     "split-and-trade-same-day": role_split_and_trade_same_day,
